@@ -56,7 +56,7 @@ OVERLAY = {
     "sim/observer.rs": "sim__observer.rs",
 }
 # additional harness modules for a source file that already has one: kani file -> (source file, module name)
-EXTRA_OVERLAY = {
+EXTRA_OVERLAY = {"sim__new.rs": ("sim.rs", "verif_kani_new"), "asm__obj.rs": ("asm.rs", "verif_kani_obj"), "sim__mem__z.rs": ("sim/mem.rs", "verif_kani_z"), 
     "sim__mem__copy.rs": ("sim/mem.rs", "verif_kani_copy"),
     "sim__device__poll.rs": ("sim/device.rs", "verif_kani_poll"),
     "sim__device__h.rs": ("sim/device.rs", "verif_kani_h"),
@@ -71,6 +71,7 @@ MODULE_NEEDS = {
     "sim__frame.rs": ["sim__mem.rs"],
     "sim__mem__copy.rs": ["sim__mem.rs"],
     "asm__objblock.rs": ["asm.rs"],
+    "sim__new.rs": ["sim.rs", "sim__mem.rs", "sim__frame.rs", "sim__device.rs", "asm__obj.rs", "sim__mem__z.rs"],
     "sim__device__poll.rs": ["sim__device.rs"],
     "sim__device__h.rs": ["sim__device.rs"],
     "sim__frame__h.rs": ["sim__frame.rs", "sim__mem.rs"],
